@@ -424,7 +424,7 @@ def corr(ctx, oracle_only=False, nsynth=None):
     # captured backend answers; the complete exit state incl. the recorded row must be the implementation's
     if not oracle_only:
         kwnfull.refine_scenarios(ctx, res, PROP, [('alzr-small-grid', ctx.n(250, 1200)), ('nicral', ctx.n(50, 300)),
-                                                  ('alzr-nodiff', ctx.n(120, 400)), ('alzr-loaded@rk4', ctx.n(50, 170)), ('nicral@rk4', ctx.n(30, 200)), ('alzr-fine-grid', ctx.n(450, 1500)), ('alzr-small-grid@2solves@rk4', ctx.n(60, 200))] + ([('almgsi-2phase-loaded', 200)] if ctx.thorough else []),
+                                                  ('alzr-nodiff', ctx.n(120, 400)), ('alzr-loaded@rk4', ctx.n(50, 170)), ('nicral@rk4', ctx.n(30, 200)), ('alzr-loaded-dilute', ctx.n(200, 500)), ('nicral@2solves@rk4', ctx.n(30, 120))] + ([('alzr-fine-grid', 2500)] if ctx.thorough else []) + ([('almgsi-2phase-loaded', 200)] if ctx.thorough else []),
                                  oracles=('continuity', 'volume'))
     vlib.finish_guard(res)
     return res
